@@ -57,10 +57,14 @@ func crashRoots(w *World) (map[*ssa.Function]string, error) {
 				}
 			case *ssa.Store:
 				// informer handler structs: function-valued fields of client-go handler literals
-				if fa, ok := x.Addr.(*ssa.FieldAddr); ok && strings.Contains(fa.X.Type().String(), "ResourceEventHandlerFuncs") {
+				if fa, ok := x.Addr.(*ssa.FieldAddr); ok && (strings.Contains(fa.X.Type().String(), "ResourceEventHandlerFuncs") || strings.Contains(fa.X.Type().String(), "FilteringResourceEventHandler")) {
+					fld := ""
+					if fv := fieldOf(fa.X.Type(), fa.Field); fv != nil {
+						fld = fv.Name()
+					}
 					for _, o := range w.Origins(x.Val, nil) {
 						if f := closureFn(o); f != nil && w.inModule(f) && f.Blocks != nil {
-							roots[f] = "kubernetes informer callback"
+							roots[f] = "kubernetes informer callback " + fld
 						}
 					}
 				}
@@ -96,6 +100,8 @@ func hasRecover(fn *ssa.Function) bool {
 	return found
 }
 
+var gInformerRoles = map[*ssa.Function]string{}
+
 func checkC19(w *World, r *Report) {
 	roots, err := crashRoots(w)
 	if err != nil {
@@ -103,8 +109,19 @@ func checkC19(w *World, r *Report) {
 		return
 	}
 	var rootList []*ssa.Function
-	for f := range roots {
+	for f, why := range roots {
 		rootList = append(rootList, f)
+		if strings.HasPrefix(why, "kubernetes informer callback") {
+			gInformerRoles[f] = why
+			// a method value (p.addRuleSet) is registered through a bound-method wrapper
+			if strings.Contains(f.Synthetic, "bound method") {
+				for _, c := range callsIn(f) {
+					if m := c.Common().StaticCallee(); m != nil {
+						gInformerRoles[m] = why
+					}
+				}
+			}
+		}
 	}
 	sort.Slice(rootList, func(i, j int) bool { return rootList[i].String() < rootList[j].String() })
 	r.Counts["roots"] = len(rootList)
@@ -255,9 +272,14 @@ func justifiedAssert(w *World, ta *ssa.TypeAssert) string {
 		}
 	}
 	if p, ok := ta.X.(*ssa.Parameter); ok {
-		// informer callbacks receive objects of the informer's type
+		// informer callbacks for additions and updates receive objects of the informer's type; the
+		// delete callback and the filter also receive cache.DeletedFinalStateUnknown tombstones (a
+		// deletion observed only after a broken watch was re-listed)
 		if strings.Contains(p.Parent().String(), "kubernetes") {
-			return "informer callback parameter (typed informer)"
+			role := gInformerRoles[p.Parent()]
+			if strings.HasSuffix(role, " AddFunc") || strings.HasSuffix(role, " UpdateFunc") {
+				return "informer callback parameter (typed informer, " + role + ")"
+			}
 		}
 	}
 	return ""
